@@ -76,6 +76,7 @@ type Server struct {
 
 	waiters    []*waiter
 	pendingRO  []*roWait
+	Blockers   []int // application sessions holding locks that block SET GLOBAL read_only (LOCK TABLES, long DDL)
 	lockWait   map[int64]int
 	sessSeq    int
 	events     []slaveEvent
@@ -219,7 +220,7 @@ func (w *World) evalAcks(sv *Server) {
 			wt.done("acked")
 		}
 	}
-	if len(sv.waiters) == 0 {
+	if len(sv.waiters) == 0 && len(sv.Blockers) == 0 {
 		w.releaseRO(sv)
 	}
 }
@@ -364,6 +365,7 @@ func (w *World) crashServer(sv *Server, lossy int) {
 		wt.done("unknown")
 	}
 	sv.waiters = nil
+	sv.Blockers = nil
 	for _, p := range sv.pendingRO {
 		if p.ev != nil {
 			p.ev.run = func() {}
@@ -537,7 +539,7 @@ func (w *World) exec(sv *Server, c *call) (res sqlResult, deferred bool) {
 		return sqlResult{}, false
 	case q == "SET GLOBAL super_read_only = 1", q == "SET GLOBAL read_only = 1, super_read_only = 0":
 		super := q == "SET GLOBAL super_read_only = 1"
-		if len(sv.waiters) > 0 {
+		if len(sv.waiters) > 0 || len(sv.Blockers) > 0 {
 			lw := sv.lockWait[c.connID]
 			if lw < 1 {
 				lw = 1
@@ -668,9 +670,22 @@ func (w *World) exec(sv *Server, c *call) (res sqlResult, deferred bool) {
 				wt.killed = true
 			}
 		}
+		for i, b := range sv.Blockers {
+			if b == id {
+				sv.Blockers = append(sv.Blockers[:i], sv.Blockers[i+1:]...)
+				s.stats.Probes["blocking_session_killed"]++
+				break
+			}
+		}
+		if len(sv.waiters) == 0 && len(sv.Blockers) == 0 {
+			w.releaseRO(sv)
+		}
 		return sqlResult{}, false
 	case strings.HasPrefix(q, "SELECT ID FROM information_schema.PROCESSLIST"):
 		res := sqlResult{cols: []string{"ID"}}
+		for _, b := range sv.Blockers {
+			res.rows = append(res.rows, []any{int64(b)})
+		}
 		for _, wt := range sv.waiters {
 			if !wt.killed {
 				res.rows = append(res.rows, []any{int64(wt.sessID)})
